@@ -11,9 +11,7 @@
 //!   iosim replay FILE
 //!   iosim show   --seed N --index I
 
-mod gen;
-
-use gen::*;
+use simcore::textgen::*;
 use serde::{Deserialize, Serialize};
 use simcore::rng::{fnv1a, Rng};
 use std::cell::RefCell;
